@@ -156,6 +156,12 @@ func c04Node(rng *rand.Rand, depth int) *C04Node {
 	}
 	if rng.Intn(4) == 0 {
 		n.MF = map[float64]C04Leaf{math.NaN(): c04Leaf(rng), 1.5: c04Leaf(rng)} // an entry under a key that is not equal to itself
+		if rng.Intn(2) == 0 {
+			// keys Go prints with an exponent (2.5e+06, 1e-06, 1e+21): the entry is named as the key prints
+			n.MF[2500000] = c04Leaf(rng)
+			n.MF[0.000001] = c04Leaf(rng)
+			n.MF[1e21] = c04Leaf(rng)
+		}
 	}
 	if rng.Intn(3) == 0 {
 		n.MMo = map[time.Month]C04Leaf{time.March: c04Leaf(rng), 14: c04Leaf(rng)}
